@@ -3,7 +3,7 @@
 CONSTANTS Budget = 1 MaxItems = 1 Sim = FALSE Headers = "bfs"
   Masked = {"item_b", "params1", "params2", "stmt_seq", "pipe",
             "block", "case", "lambda", "binop", "list", "tuple", "own_ctor_labelled", "own_ctor2_labelled", "own_field",
-            "two_clauses", "clause_alt", "pas", "plit", "ptuple", "plist", "pconcat", "p_own_ctor", "p_own_ctor2", "p_own_ctor_pos"}
+            "two_clauses", "clause_alt", "unknown_field", "case_nobind_bind", "pas", "plit", "ptuple", "plist", "pconcat", "p_own_ctor", "p_own_ctor2", "p_own_ctor_pos"}
 SPECIFICATION Spec
 INVARIANTS PendingInvisible TargetsAreBinders Balanced ScopeDeclarative RenameComplete EmitCase
 CHECK_DEADLOCK FALSE
